@@ -208,7 +208,12 @@ def check_ctx(pad, text):
     flat = Node(Node('a' * pad), *[x for x in inner if x.is_leaf()],
                 Node('b' * 30), Node('cc-dd'), Node('"x  y\tz"'),
                 Node('|q\n q|'), Node('g' * 90), Node('h'))
-    for tree in (node, flat):
+    # and a flat line whose tokens contain no line break at all
+    flat2 = Node(Node('a' * pad), *[x for x in inner if x.is_leaf()],
+                 Node('b' * 30), Node('cc-dd'), Node('"x  y\tz"'),
+                 Node('|q  q|'), Node(':k'), Node('"l o n g   s t r"'),
+                 Node('h'))
+    for tree in (node, flat, flat2):
         prs = []
         for mode in ('pretty', 'prettywrap'):
             _set_mode(mode)
